@@ -42,11 +42,27 @@ def make_junk(rng: random.Random, n: int) -> list:
     return out
 
 
+_LATE_CODES = ("attribute_is_never_set",)
+
+
 def render(result) -> list:
+    """[code, lineno, col, full message] per diagnostic, in emission order; the diagnostics that the attribute checker
+    prints when it is closed (they never reach the visitor's failure list) are taken from the captured stderr."""
+    import re
+
+    from vp import harness
+
     if result.exception is not None:
         e = result.exception
-        return [["<exception>", None, None, f"{type(e).__name__}: {str(e)[:300]}"]]
-    return [[d.code, d.lineno, d.col, d.message] for d in result.diags]
+        return [["<exception>", None, None, harness.normalise_text(f"{type(e).__name__}: {str(e)[:300]}")]]
+    out = [[d.code, d.lineno, d.col, d.message] for d in result.diags]
+    if result.stderr and any(f"(code: {c})" in result.stderr for c in _LATE_CODES):
+        for block in result.stderr.split("\n\n"):
+            m = re.search(r"\(code: (\w+)\)", block)
+            if m and m.group(1) in _LATE_CODES:
+                lm = re.search(r"^In .* at line (\d+)", block, re.M)
+                out.append([m.group(1), int(lm.group(1)) if lm else None, None, "\n" + harness.normalise_text(block.strip("\n")) + "\n"])
+    return out
 
 
 def main() -> int:
